@@ -1542,9 +1542,11 @@ func resolveVar(computed map[string]pr.RawTokens, token Token, visiting utils.Se
 		if l := computed[variableName]; len(l) != 0 {
 			source = l
 		}
+		// only the call that marks the variable unmarks it: a nested, cyclic
+		// occurrence must leave the mark of the outer one in place
+		visiting.Add(variableName)
+		defer delete(visiting, variableName)
 	}
-	visiting.Add(variableName)
-	defer delete(visiting, variableName)
 
 	computedValue := []Token{}
 	for _, value := range source {
